@@ -379,5 +379,9 @@ def build(tier):
                             bounds='window of %d epoch(s), events per epoch %s; claims map symbolic' % (len(sh), sh), max_paths=100000))
     from . import market_batch
     O += market_batch.build_for('C05', tier)
+    # the market tick relies on an invariant that settlements must keep: a deal whose pending-proposal entry was retired by
+    # its first update is stamped as updated (obligation shared with C01 / C07)
+    from . import C01
+    O += [o for o in C01.build_settle(tier) if '[3 deals' not in o.name]
     O += miner_money.build_for('C05', tier)
     return O
